@@ -421,12 +421,16 @@ def corpus(rng, tier, n_random, profiles=("poly", "smooth", "smooth", "all"), de
     if want is not None:
         bs, cs = probe.bases(), probe.contexts()
         def label(i):
-            return f"{cs[(i // len(bs)) % len(cs)][0]}({bs[i % len(bs)]})"
+            l_ = f"{cs[(i // len(bs)) % len(cs)][0]}({bs[i % len(bs)]})"
+            j_ = i // (len(bs) * len(cs))
+            return l_ if j_ == 0 else f"{cs[(j_ - 1 + (i // len(bs))) % len(cs)][0]}({l_})"
         full = [i for i in full if any(w in label(i) for w in want)]
     if exclude is not None:
         bs, cs = probe.bases(), probe.contexts()
         def label2(i):
-            return f"{cs[(i // len(bs)) % len(cs)][0]}({bs[i % len(bs)]})"
+            l_ = f"{cs[(i // len(bs)) % len(cs)][0]}({bs[i % len(bs)]})"
+            j_ = i // (len(bs) * len(cs))          # beyond the first grid a second context is stacked on top (Gen.focused)
+            return l_ if j_ == 0 else f"{cs[(j_ - 1 + (i // len(bs))) % len(cs)][0]}({l_})"
         full = [i for i in full if not any(w in label2(i) for w in exclude)]
     if tier == "quick" and focus_scale < 1.0:
         k = max(1, int(len(full) * focus_scale))
